@@ -1002,7 +1002,14 @@ def x11(ctx, R):
         rets = [r for r in walk_no_nested(h) if isinstance(r, ast.Return)]
         okp = bool(poss) and all(isinstance(a.value, ast.Tuple) and len(a.value.elts) == 3 for a in poss)
         if okp:
-            e0, e1, e2 = poss[0].value.elts
+            def local_value(e, h=h):
+                if isinstance(e, ast.Name):
+                    ds = [a for a in walk_no_nested(h) if isinstance(a, ast.Assign) and len(a.targets) == 1 and isinstance(a.targets[0], ast.Name)
+                          and a.targets[0].id == e.id]
+                    if len(ds) == 1 and ds[0].lineno <= e.lineno:
+                        return ds[0].value
+                return e
+            e0, e1, e2 = [local_value(x) for x in poss[0].value.elts]
             okp = "curlineno" in norm(e0) and "curcolno" in norm(e1) and isinstance(e2, ast.Call) and call_name(e2) == "len"
         from sa.template import template, Lit, Hole
 
